@@ -351,13 +351,18 @@ Definition stalled_module : string := "parser made no progress in module; skippi
 Definition stalled_program : string := "parser made no progress while parsing statement; skipping token for recovery".
 Definition stalled_match : string := "parser made no progress in match arm; skipping token for recovery".
 
+(* The four loops with a no-progress guard.  `while g { B }` is transcribed as `if g { L }` with the procedure
+   L = `B; if g { L }` (one iteration, then the loop test for the next one): F..Loop below is L, while_.. is `if g { L }`. *)
+Definition while_program : cmd := When (CNot CAtEnd) (Call FProgramLoop).
+Definition while_module : cmd := When (CAnd (CNot (check KBlockEnd)) (CNot CAtEnd)) (Call FModuleLoop).
+Definition while_block : cmd := When (CAnd (CNot (check KBlockEnd)) (CNot CAtEnd)) (Call FBlockLoop).
+Definition while_match_arms : cmd := When (CAnd (CNot (check KBlockEnd)) (CNot CAtEnd)) (Call FMatchArmLoop).
+
 Definition body (f : fname) : cmd :=
   match f with
-  (* parse: while !self.is_at_end() { .. } *)
+  (* parse: while !self.is_at_end() { .. }   (one iteration; see while_program) *)
   | FProgramLoop =>
-      When (CNot CAtEnd)
-        (WithBefore (Call FStatement ;; When CStalled (Err EKSyntax stalled_program ;; Bump)) ;;
-         Call FProgramLoop)
+      WithBefore (Call FStatement ;; When CStalled (Err EKSyntax stalled_program ;; Bump) ;; while_program)
   (* parse_statement *)
   | FStatement =>
       Node SStatement (
@@ -372,11 +377,9 @@ Definition body (f : fname) : cmd :=
       Node SModuleDecl (
         Expect KMod ;; Expect KIdent ;;
         If (check KLineBreak) Bump
-           (When (check KBlockBegin) (Expect KBlockBegin ;; Call FModuleLoop ;; Expect KBlockEnd)))
+           (When (check KBlockBegin) (Expect KBlockBegin ;; while_module ;; Expect KBlockEnd)))
   | FModuleLoop =>
-      When (CAnd (CNot (check KBlockEnd)) (CNot CAtEnd))
-        (WithBefore (Call FStatement ;; When CStalled (Err EKSyntax stalled_module ;; Bump)) ;;
-         Call FModuleLoop)
+      WithBefore (Call FStatement ;; When CStalled (Err EKSyntax stalled_module ;; Bump) ;; while_module)
   (* parse_use_stmt, parse_use_path *)
   | FUseStmt => Node SUseStmt (Expect KUse ;; Call FUsePath)
   | FUsePath => Node SQualifiedPath (Expect KIdent ;; Call FUsePathLoop)
@@ -595,13 +598,12 @@ Definition body (f : fname) : cmd :=
            (If (check KDoubleDot) Bump (* break *) (record_field ;; Call FRecordFieldLoop))
            (Call FRecordFieldLoop))
   (* parse_block_expr *)
-  | FBlockExpr => Node SBlockExpr (Expect KBlockBegin ;; Call FBlockLoop ;; Expect KBlockEnd)
+  | FBlockExpr => Node SBlockExpr (Expect KBlockBegin ;; while_block ;; Expect KBlockEnd)
   | FBlockLoop =>
-      When (CAnd (CNot (check KBlockEnd)) (CNot CAtEnd)) (
-        WithBefore (
-          Call FStatement ;;
-          If CStalled (Err EKSyntax stalled_block ;; Bump ;; Call FBlockLoop (* continue *))
-             (If CTrailingLB (Call FBlockLoop (* continue *)) (Call FBlockLoop))))
+      WithBefore (
+        Call FStatement ;;
+        If CStalled (Err EKSyntax stalled_block ;; Bump ;; while_block (* continue *))
+           (If CTrailingLB (while_block (* continue *)) while_block))
   (* parse_if_expr *)
   | FIfExpr =>
       Node SIfExpr (
@@ -614,15 +616,14 @@ Definition body (f : fname) : cmd :=
   | FMatchExpr =>
       Node SMatchExpr (
         Expect KMatch ;; Call FExpr ;; Expect KBlockBegin ;;
-        Node SMatchArmList (Call FMatchArmLoop) ;;
+        Node SMatchArmList while_match_arms ;;
         Expect KBlockEnd)
   | FMatchArmLoop =>
-      When (CAnd (CNot (check KBlockEnd)) (CNot CAtEnd)) (
-        WithBefore (
-          Call FMatchArm ;;
-          If CStalled (Err EKSyntax stalled_match ;; Bump ;; Call FMatchArmLoop (* continue *))
-             (If CTrailingLB (Call FMatchArmLoop (* continue *))
-                 (When (check KComma) Bump ;; Call FMatchArmLoop))))
+      WithBefore (
+        Call FMatchArm ;;
+        If CStalled (Err EKSyntax stalled_match ;; Bump ;; while_match_arms (* continue *))
+           (If CTrailingLB (while_match_arms (* continue *))
+               (When (check KComma) Bump ;; while_match_arms)))
   (* parse_match_arm *)
   | FMatchArm =>
       Node SMatchArm (
@@ -766,13 +767,13 @@ Inductive presult :=
 
 Definition init_state (ts : list tok) : pstate := mkSt ts None 0 [] [] [].
 
-(* the constants of C04_parse_progress: fuel K*(n+1) with K = 24 always suffices *)
-Definition FUEL_K : nat := 24.
+(* the constants of C04_parse_progress: fuel K*(n+1) with K = 12 always suffices *)
+Definition FUEL_K : nat := 12.
 Definition parse_fuel (n : nat) : nat := FUEL_K * (n + 1).
 
 (* parse(): start_node(Program); while ..; finish_node().unwrap() *)
 Definition parse_with (fuel : nat) (ts : list tok) : presult :=
-  match run fuel FProgramLoop None (set_stack (init_state ts) (b_start SProgram [])) with
+  match exec (run fuel) while_program 0 None (set_stack (init_state ts) (b_start SProgram [])) with
   | Ok st1 => match snd (b_finish (stack st1)) with
               | Some root => POk root (rev (errs st1)) (rev (marks st1))
               | None => PPanic "finish_node().unwrap() on None"
